@@ -445,11 +445,14 @@ func runRESETALL(c *Ctx) {
 		fs = append(fs, f)
 	}
 	sort.Strings(fs)
-	// drivers: functions calling the step
-	for _, cs := range c.P.Callers[step] {
+	// drivers: functions calling the step. A private helper that runs the step once per call (the step call is not in
+	// a loop of its own: `diffStep` = reset + step) is not a driver: its call sites are, and a field counts as cleared
+	// there when the helper clears it on the way to the step or the caller does on the way to the helper.
+	var check func(cs ssa.CallInstruction, pending []string, via string, depth int)
+	check = func(cs ssa.CallInstruction, pending []string, via string, depth int) {
 		drv := cs.Parent()
 		var missing []string
-		for _, f := range fs {
+		for _, f := range pending {
 			f := f
 			clears := func(i ssa.Instruction) bool {
 				return clearsField(c, i, f, 0)
@@ -458,7 +461,13 @@ func runRESETALL(c *Ctx) {
 				missing = append(missing, f)
 			}
 		}
-		what := fmt.Sprintf("%s clears {%s} before each step", ir.FuncName(drv), strings.Join(fs, ","))
+		if callers := c.P.Callers[drv]; depth < 2 && len(callers) > 0 && !sdBlockInCycle(cs.Block()) && onlyCalledStatically(c, drv) && !c.Facts.Reach(step)[drv] {
+			for _, cs2 := range callers {
+				check(cs2, missing, via+" through "+drv.Name(), depth+1)
+			}
+			return
+		}
+		what := fmt.Sprintf("%s clears {%s} before each step%s", ir.FuncName(drv), strings.Join(fs, ","), via)
 		if len(missing) == 0 {
 			c.OK(P.InstrPos(cs), what, "every report field is reset on every path to the step, in every iteration", false)
 		} else {
@@ -466,6 +475,47 @@ func runRESETALL(c *Ctx) {
 				"a field the step sets only for some outcomes keeps the previous entry's value: added entries carry an old value, removed ones a new value, links repeat")
 		}
 	}
+	for _, cs := range c.P.Callers[step] {
+		check(cs, fs, "", 0)
+	}
+}
+
+// onlyCalledStatically: every use of fn is a call the program's caller table lists: an unexported function or
+// method that is never taken as a value, or a function literal that is only called in place by its variable.
+func onlyCalledStatically(c *Ctx, fn *ssa.Function) bool {
+	if fn.Parent() == nil {
+		return fn.Object() != nil && !fn.Object().Exported() && !c.Facts.addrTaken[fn]
+	}
+	n := 0
+	for _, b := range fn.Parent().Blocks {
+		for _, ins := range b.Instrs {
+			mc, ok := ins.(*ssa.MakeClosure)
+			if !ok || mc.Fn != ssa.Value(fn) {
+				continue
+			}
+			n++
+			if mc.Referrers() == nil {
+				return false
+			}
+			for _, r := range *mc.Referrers() {
+				switch x := r.(type) {
+				case *ssa.DebugRef:
+				case *ssa.Call:
+					if x.Call.Value != ssa.Value(mc) {
+						return false
+					}
+					for _, a := range x.Call.Args {
+						if a == ssa.Value(mc) {
+							return false
+						}
+					}
+				default:
+					return false
+				}
+			}
+		}
+	}
+	return n == 1
 }
 
 // clearsField: instruction stores the zero value to diffState.<f>, or calls a
